@@ -38,6 +38,7 @@ def register(reg):
     register_object_intersects(reg)
     register_volume_intersects(reg)
     register_contains_object(reg)
+    register_circumradius(reg)
 
 
 def hypot_of(eng, name, sqsum):
@@ -393,6 +394,84 @@ def register_contains_object(reg):
             inline_all=True,
             bounded=True,
             note="relative to the containment kernel K8; meshes with 2 vertices each (symbolic coordinates)",
+            properties=("C04",),
+        )
+    )
+
+
+# ===================================================================================================
+# MeshVolumeRegion._circumradius: the premise of K1 (meshes without a precomputed shape)
+
+
+def register_circumradius(reg):
+    NV = 2
+
+    def setup(I, env):
+        eng = I.eng
+        S = PObj(RC("MeshVolumeRegion"), tag="self")
+        init_samplable(S)
+        mesh = MS.make_mesh(I, "self.mesh")
+        vs = [[eng.fresh_real(f"v{i}.{c}") for c in "xyz"] for i in range(NV)]
+        mesh.fields["vertices"] = MS.NDArr((NV, 3), vs)
+        pos = tuple(eng.fresh_real(f"position.{c}") for c in "xyz")
+        eng.input_syms.append(("position", C.TupleOf(C.Real(), C.Real(), C.Real()), pos))
+        for i, v in enumerate(vs):
+            eng.input_syms.append((f"v{i}", C.TupleOf(C.Real(), C.Real(), C.Real()), tuple(v)))
+        S.fields.update(mesh=mesh, position=make_vector(*pos), _scaledShape=None, _shape=None, orientation=None, name=None)
+        env.vars.update(self=S, _vs=vs, _pos=pos)
+
+    def post(I, env, outcome):
+        eng = I.eng
+        if outcome[0] != "return":
+            return
+        r = outcome[1]
+        oname = "regions.MeshVolumeRegion._circumradius"
+        ok = isinstance(r, (int, float, SV))
+        eng.check(f"{oname}#ensures.returns_a_number", ok)
+        if ok:
+            # K1 needs: the region lies within the ball of this radius about its POSITION
+            eng.check(f"{oname}#ensures.every_vertex_within_the_radius_of_the_position[no precomputed shape]", sv_and(compare(">=", r, 0), *[compare("<=", dist3sq(v, env.vars["_pos"]), sq(r)) for v in env.vars["_vs"]]))
+
+    def replay(inputs, clause):
+        import warnings
+
+        warnings.filterwarnings("ignore")
+        import numpy
+        import trimesh
+
+        from scenic.core.object_types import Object
+        from scenic.core.regions import EmptyRegion, MeshVolumeRegion
+        from scenic.core.vectors import Vector
+
+        pts = numpy.array([[-1, -1, -0.1], [-1, 1, -0.1], [-1, -1, 0.1], [-1, 1, 0.1], [1, 0, 0]], dtype=float)
+        pos = numpy.array([0.3, 0.0, 0.0])
+        A = MeshVolumeRegion(trimesh.convex.convex_hull(pts), position=Vector(*pos))
+        V = A.mesh.vertices
+        d = numpy.linalg.norm(V - pos, axis=1)
+        true_r, far = float(d.max()), V[int(numpy.argmax(d))]
+        code_r = float(A._circumradius)
+        if code_r >= true_r - 1e-9:
+            return None
+        o = Object._with(position=Vector(*(far + (pos - far) * 0.01)), width=0.06, length=0.06, height=0.06)
+        B = o.occupiedSpace
+        inter = A.intersect(B)
+        vol = 0.0 if isinstance(inter, EmptyRegion) else float(inter.mesh.volume)
+        return (
+            f"wedge mesh region at position (0.3, 0, 0): _circumradius = {code_r:.4f} but its vertex {tuple(round(float(x), 4) for x in far)} is {true_r:.4f} from the position "
+            f"(radius measured from the world origin); with a 0.06-box object at that corner: region.intersects(object) = {A.intersects(B)} "
+            f"although their exact intersection has volume {vol:.3g}"
+        )
+
+    reg.add(
+        C.Contract(
+            f"{RG}:MeshVolumeRegion._circumradius",
+            params=dict(self=C.Const(None)),
+            setup=setup,
+            post=post,
+            inline_all=True,
+            replay=replay,
+            bounded=True,
+            note="fallback arm (no precomputed shape); mesh of 2 vertices (symbolic)",
             properties=("C04",),
         )
     )
